@@ -432,6 +432,7 @@ type renderer struct {
 	ids   map[*Obj]int
 	sb    strings.Builder
 	depth int
+	sym   bool // a non-constant term was rendered
 }
 
 func (r *renderer) obj(o *Obj) {
@@ -503,6 +504,7 @@ func (r *renderer) val(v Value) {
 		if x.Const {
 			r.sb.WriteString(r.tc.Show(x))
 		} else {
+			r.sym = true
 			fmt.Fprintf(&r.sb, "t%d", x.ID)
 		}
 	case Ptr:
